@@ -57,6 +57,14 @@ def run(ctx, model_ok):
                 v = list(base)
                 v[k] = rng.choice([x for x in ((base[k] + 1) % 2 ** 64, 0x7777 + k, 2 ** 63 + 5, 2 ** 64 - 1) if x != base[k]])
                 metas.append((key, v, last, 7, paths, []))
+            if rep == 0:
+                # source-guided boundary values: the integer literals the handler compares its arguments with
+                for cst in dc.handler_constants(R, key):
+                    for k in range(4):
+                        if k not in enumw and cst != base[k]:
+                            v = list(base)
+                            v[k] = cst
+                            metas.append((key, v, last, 7, paths, []))
             # vary the END record only
             metas.append((key, base, [rng.choice([1, 5, 35, 999]), rng.getrandbits(40), 9, 9], 7, paths, []))
             groups.append((key, start, len(metas)))
